@@ -398,6 +398,29 @@ def atol_sites(rep: Report, g: CFG, ref: str, var: str, role: str, factor: Fract
             rep.sample({"construct": ref, "role": role, "value": ast.unparse(e), "kind": "constant (dt unknown)"})
             if not rep.oblige(f"controller/{role}-constant-site#{n_const}", okc, ast.unparse(e)):
                 rep.violation("C08.atol-sites", f"{ref}::{role}", f"`{var} = {ast.unparse(e)}`: a constant tolerance is only allowed (positive) where dt is unknown", line=n.lineno)
+            elif in_none:
+                # "unknown" means unknown to the solver as well: the tested name must (also) be defined from the
+                # solver's published `dt` before the test -- a caller who leaves dt to the solver still gets steps of
+                # that size, and a constant tolerance serves every tracker one step late
+                tested = [
+                    p.test.left.id
+                    for p, fld in g.enclosing(n)
+                    if isinstance(p, ast.If) and fld == "body" and isinstance(p.test, ast.Compare) and isinstance(p.test.left, ast.Name) and isinstance(p.test.ops[0], ast.Is)
+                ]
+                for nm in tested[-1:]:
+                    from_solver = False
+                    for d in g.defs_reaching(n, nm):
+                        v = def_value(d, nm)
+                        if v[0] == "expr" and isinstance(v[1], ast.Call) and isinstance(v[1].func, ast.Attribute) and v[1].func.attr == "get" and v[1].args and isinstance(v[1].args[0], ast.Constant) and v[1].args[0].value == "dt":
+                            from_solver = True
+                    if not rep.oblige(f"controller/{role}-constant-site#{n_const}: `{nm}` falls back to the solver's own dt first", from_solver, nm):
+                        rep.violation(
+                            "C08.atol-sites",
+                            f"{ref}::{role}::dt-fallback",
+                            f"`{var} = {ast.unparse(e)}` is used whenever the caller passed no `{nm}`: no definition of `{nm}` from the solver's published step (`<info>.get('dt')`) reaches this branch, "
+                            "so a solver stepping with its default dt gets a constant tolerance and every scheduled time between two steps is served a full step late (not within dt/2)",
+                            line=n.lineno,
+                        )
             continue
         # adaptivity guard: ('adaptive' | 'fixed' | None) from the enclosing `if <adaptive flag>:` branches
         guard = adaptivity_guard(g, n)
